@@ -643,7 +643,7 @@ func init() {
 		Plan: func(tier string) []Plan {
 			n := 60
 			if tier == "thorough" {
-				n = 1800
+				n = 5400
 			}
 			return []Plan{{Cases: n, Workers: 6, MaxProcs: 4, Timeout: 30 * time.Minute, HangIsViol: true},
 				{Cases: n / 3, Workers: 6, MaxProcs: 4, Timeout: 30 * time.Minute, HangIsViol: true}}
